@@ -274,3 +274,15 @@ Theorem C02_padded_root_binds_leaves : forall (H256 : bytes -> bytes), (forall x
   ls = ls' \/ (exists x y : bytes, x <> y /\ H256 x = H256 y).
 Proof. exact padded_root_binds. Qed.
 Print Assumptions C02_padded_root_binds_leaves.
+
+(* ... hence the pieces root binds the CONTENT of a file: two files of the same length with the same BEP 52 root
+   (`bep52_root`, the specification the three hashers are proved equal to above) are the same bytes, or H256
+   collides -- for every block size B > 0.  This is the converse direction of the correctness theorems: not only
+   is the root of the right bytes right, a right root means the right bytes (recheck C04, rebuild C13) *)
+Theorem C02_pieces_root_binds_content : forall (H256 : bytes -> bytes), (forall x, length (H256 x) = 32%nat) ->
+  forall B : nat, (0 < B)%nat -> forall data data' : bytes,
+  length data = length data' ->
+  bep52_root H256 B data = bep52_root H256 B data' ->
+  data = data' \/ (exists x y : bytes, x <> y /\ H256 x = H256 y).
+Proof. exact bep52_root_binds. Qed.
+Print Assumptions C02_pieces_root_binds_content.
